@@ -279,6 +279,7 @@ fn c19(r: &mut Report) {
         diff::Prim::Semaphore(0),
         diff::Prim::Semaphore(2),
         diff::Prim::Mutex,
+        diff::Prim::RwLock,
         diff::Prim::Notify,
         diff::Prim::Oneshot,
         diff::Prim::Watch,
@@ -319,7 +320,7 @@ fn c19(r: &mut Report) {
     for a in accs {
         a.merge_into(r);
     }
-    r.rule = "(A) random scripts (4-25 steps: start an async operation in a slot, poll it once by hand, cancel it, or call a non-async method) over bounded/unbounded mpsc, Semaphore, Mutex, Notify, oneshot and watch are executed against real tokio 1.x (no runtime) and against the replacement inside a one-task Shuttle execution; per-step results must be equal; (B) scheduled scenarios — correct tokio programs with built-in invariant checks (unique ids exactly once and per-sender FIFO across recv/try_recv/blocking_recv and send/try_send/blocking_send, len ≤ capacity, close/drop semantics, oneshot at most once, watch never backwards and ends on the latest value, Notify permit and waiter rules incl. a notified-then-dropped waiter, Mutex/RwLock exclusion, Mutex and Semaphore FIFO fairness, permit conservation, JoinSet/abort/timeout/sleep) — enumerated exhaustively up to a cap and sampled with random and PCT schedulers; any panic, deadlock or step-bound hit is a violation. evaluations = scripts + scenario executions; distinct_nontrivial = distinct scripts + distinct choice sequences with a real choice".into();
+    r.rule = "(A) random scripts (4-25 steps: start an async operation in a slot, poll it once by hand, cancel it, or call a non-async method) over bounded/unbounded mpsc, Semaphore (incl. zero-permit requests), Mutex, RwLock (read/write/try/downgrade), Notify, oneshot and watch are executed against real tokio 1.x (no runtime) and against the replacement inside a one-task Shuttle execution; per-step results must be equal; (B) scheduled scenarios — correct tokio programs with built-in invariant checks (unique ids exactly once and per-sender FIFO across recv/try_recv/blocking_recv and send/try_send/blocking_send, len ≤ capacity, close/drop semantics, oneshot at most once, watch never backwards and ends on the latest value, Notify permit and waiter rules incl. a notified-then-dropped waiter, Mutex/RwLock exclusion, Mutex and Semaphore FIFO fairness, permit conservation, JoinSet/abort/timeout/sleep) — enumerated exhaustively up to a cap and sampled with random and PCT schedulers; any panic, deadlock or step-bound hit is a violation. evaluations = scripts + scenario executions; distinct_nontrivial = distinct scripts + distinct choice sequences with a real choice".into();
     r.assumptions = vec![
         "real tokio as shipped in the offline registry is the reference for the differential part; wake-ups are not compared, only results".into(),
         "entry points the replacement marks unimplemented (poll_recv, reserve, closed, broadcast) are not driven".into(),
